@@ -833,12 +833,12 @@ impl Runtime {
         if self.pc < self.entry_address {
             return Err(error!(IllegalDirect));
         }
-        if !self.listing.indirect_errors.is_empty() {
-            return Ok(Event::Errors(Arc::clone(&self.listing.indirect_errors)));
-        }
         let step = u16::try_from(self.stack.pop()?)?;
         let old_start = u16::try_from(self.stack.pop()?)?;
         let new_start = u16::try_from(self.stack.pop()?)?;
+        if !self.listing.indirect_errors.is_empty() {
+            return Ok(Event::Errors(Arc::clone(&self.listing.indirect_errors)));
+        }
         self.listing.renum(new_start, old_start, step)?;
         self.dirty = true;
         self.state = State::Stopped;
